@@ -10,14 +10,15 @@ import (
 )
 
 // rulesExtra3: rules added after the third round of independently seeded changes.
-//   M4 — a controller that loads its write list from IPFS assigns the decoded list on every
-//        successful path of Load; the manifest resolved from IPFS takes nothing from the
-//        opener's parameters
-//   M5 — address values are only built by the parsing constructor
-//   X4 — the membership snapshot is replaced on every successful path of the diff
-//   B6 — no per-store closure is written back into the caller's options so that it wraps
-//        the previous value of the same field
-//   G8 — Close (past its guard) reaches cancel, Replicator.Stop and the cache Close on EVERY path
+//
+//	M4 — a controller that loads its write list from IPFS assigns the decoded list on every
+//	     successful path of Load; the manifest resolved from IPFS takes nothing from the
+//	     opener's parameters
+//	M5 — address values are only built by the parsing constructor
+//	X4 — the membership snapshot is replaced on every successful path of the diff
+//	B6 — no per-store closure is written back into the caller's options so that it wraps
+//	     the previous value of the same field
+//	G8 — Close (past its guard) reaches cancel, Replicator.Stop and the cache Close on EVERY path
 func rulesExtra3(c *Ctx) {
 	c.ruleM4()
 	c.ruleM5()
